@@ -86,4 +86,21 @@ theorem get_enterSubshell_none (st : State) (ii ks : Bool) (c : Nat) (h : get st
     simp only [if_true]
     exact get_ignoreBoth_none _ c h1
 
+/-! ### the parent side of a subshell -/
+
+theorem runInChild_fst {β : Type} (copied : List (String × String)) (env : Env) (childTask : Env → β) :
+    (runInChild copied env childTask).1 = env := by
+  cases env; rfl
+
+theorem startKind_parent {β : Type} (copied : List (String × String)) (k : Kind) (jc : Bool) (env : Env)
+    (task : Env → β) : (startKind copied k jc env task).1 = env := by
+  unfold startKind
+  cases k <;> cases jc <;> simp only [startSubshell, runInChild_fst, if_true, Bool.false_eq_true, if_false]
+
+theorem finishKind_env (k : Kind) (out : Shell) (st : Nat) : (finishKind k out st).env = out.env := by
+  unfold finishKind
+  split
+  · rfl
+  · split <;> rfl
+
 end YashModel.Fork
